@@ -119,10 +119,31 @@ func (c *fnCtx) errIdiom(s, next ast.Stmt, e *env, rest cont) (string, bool, err
 	}
 	p := selPath(call.Fun)
 	fv, _, ok := e.lookup(p)
+	var calleeSig *fnSig
+	var calleeDecl *ast.FuncDecl
 	if p == "" || !ok || fv.kind.Base != "func" || !fv.kind.Fn.Wrap {
-		return "", false, nil
+		// a function of this package that returns (T, error)
+		id, isID := call.Fun.(*ast.Ident)
+		if !isID {
+			return "", false, nil
+		}
+		if _, _, isVar := e.lookup(id.Name); isVar {
+			return "", false, nil
+		}
+		d, found := c.pkg.Funcs[id.Name]
+		if !found || d.Type.Results == nil || len(d.Type.Results.List) != 2 {
+			return "", false, nil
+		}
+		if rid, isErr := d.Type.Results.List[1].Type.(*ast.Ident); !isErr || rid.Name != "error" {
+			return "", false, nil
+		}
+		sig, err := c.tr.translateFunc(c.pkg, d, "", c.spec, true)
+		if err != nil {
+			return "", false, err
+		}
+		calleeSig, calleeDecl = sig, d
 	}
-	// from here on the statement is an oracle call: anything that does not fit is refused
+	// from here on the statement is a fallible call: anything that does not fit is refused
 	ifs, ok := next.(*ast.IfStmt)
 	if !ok || ifs.Init != nil || ifs.Else != nil {
 		return "", false, c.err(s, "call of %s whose error is not checked by the next statement", p)
@@ -146,15 +167,26 @@ func (c *fnCtx) errIdiom(s, next ast.Stmt, e *env, rest cont) (string, bool, err
 	if !(selPath(last) == errID.Name || c.isErrValue(last, e)) || !c.hasErr {
 		return "", false, c.err(ifs, "error branch that does not return an error")
 	}
-	callText, err := c.oracleCall(call, p, fv, e)
-	if err != nil {
-		return "", false, err
+	var callText string
+	var resK Kind
+	if calleeSig != nil {
+		_, as2, err := c.calleeArgs(calleeSig, calleeDecl, nil, call, e)
+		if err != nil {
+			return "", false, err
+		}
+		callText, resK = "("+calleeSig.name+as2+")", calleeSig.result
+	} else {
+		ct, err := c.oracleCall(call, p, fv, e)
+		if err != nil {
+			return "", false, err
+		}
+		callText, resK = ct, fv.kind.Fn.Res
 	}
 	pre := c.takePre()
 	binder := "_"
 	if id, ok := as.Lhs[0].(*ast.Ident); ok && id.Name != "_" {
 		binder = c.fresh(id.Name)
-		vi := varInfo{coq: binder, kind: fv.kind.Fn.Res}
+		vi := varInfo{coq: binder, kind: resK}
 		if as.Tok == token.DEFINE {
 			e.declare(id.Name, vi)
 		} else {
@@ -273,7 +305,42 @@ func (c *fnCtx) hoistIndex(s ast.Stmt, e *env) (string, string, error) {
 			}
 			return nil
 		case *ast.SliceExpr:
-			return walk(x.X, short)
+			// s[:] is s; s[k:] is the tail from k on (k out of range panics)
+			if _, done := c.hoisted[x]; done {
+				return nil
+			}
+			if p := selPath(x.X); p == "" || x.High != nil || x.Max != nil {
+				return walk(x.X, short)
+			}
+			sv, err := c.expr(x.X, e)
+			if err != nil {
+				return err
+			}
+			if sv.K.Base != "slice" {
+				return nil
+			}
+			if x.Low == nil {
+				c.hoisted[x] = Val{S: sv.S, K: sv.K, Alias: sv.Alias}
+				return nil
+			}
+			if err := walk(x.Low, short); err != nil {
+				return err
+			}
+			lv, err := c.exprKind(x.Low, e, Kind{Base: "int"})
+			if err != nil {
+				return err
+			}
+			if short {
+				return c.err(x, "slice expression on the right of && / || (conditional panic)")
+			}
+			if err := c.needPanic(x); err != nil {
+				return err
+			}
+			tn := c.fresh("from")
+			open += fmt.Sprintf("match slice_from %s %s with None => Panic | Some %s =>\n  ", atom(sv.S), atom(lv.S), tn)
+			shut = " end" + shut
+			c.hoisted[x] = Val{S: tn, K: sv.K, Alias: sv.Alias}
+			return nil
 		case *ast.FuncLit:
 			return nil // only as the comparator of sort.Slice, which is read as a whole
 		case *ast.CallExpr:
@@ -484,6 +551,14 @@ func (c *fnCtx) assignedOuter(body *ast.BlockStmt, post ast.Stmt, e *env) []stri
 				}
 			}
 		case *ast.CallExpr:
+			// a method of a named set type (it may insert into its receiver)
+			if sel, ok := n.Fun.(*ast.SelectorExpr); ok {
+				if id, ok := sel.X.(*ast.Ident); ok {
+					if v, _, ok := e.lookup(id.Name); ok && v.kind.Base == "set" && v.kind.Named != nil && sel.Sel.Name != "Contains" {
+						add(id)
+					}
+				}
+			}
 			// a big.Int method that stores into a variable receiver inside an expression
 			if sel, ok := n.Fun.(*ast.SelectorExpr); ok && bigMethods[sel.Sel.Name] || ok && sel.Sel.Name == "SetBit" {
 				if id, ok := sel.X.(*ast.Ident); ok {
@@ -671,7 +746,7 @@ func (c *fnCtx) emitLoop(ls loopSpec, e *env, rest cont) (string, error) {
 	sort.Slice(invs, func(i, j int) bool { return invs[i].pos < invs[j].pos })
 	_, useIdx := w[lc.idxCoq]
 
-	var binders, callArgs, recArgs []string
+	var binders, invArgs, varArgs, recArgs []string
 	var tps []string
 	for t := range c.tparams {
 		tps = append(tps, t)
@@ -682,30 +757,33 @@ func (c *fnCtx) emitLoop(ls loopSpec, e *env, rest cont) (string, error) {
 	}
 	for _, iv := range invs {
 		binders = append(binders, fmt.Sprintf("(%s : %s)", iv.coq, iv.kind.coqType()))
-		callArgs = append(callArgs, iv.coq)
+		invArgs = append(invArgs, iv.coq)
 		recArgs = append(recArgs, iv.coq)
 	}
 	if ls.listMode {
 		binders = append(binders, fmt.Sprintf("(%s : list %s)", lN, elemK.coqType()))
-		callArgs = append(callArgs, atom(ls.over.S))
+		varArgs = append(varArgs, atom(ls.over.S))
 	} else {
 		binders = append(binders, fmt.Sprintf("(%s : nat)", lN))
-		callArgs = append(callArgs, atom(ls.count))
+		varArgs = append(varArgs, atom(ls.count))
 	}
 	recArgs = append(recArgs, tailN)
 	if useIdx {
 		binders = append(binders, fmt.Sprintf("(%s : Z)", lc.idxCoq))
-		callArgs = append(callArgs, atom(ls.idxStart))
+		varArgs = append(varArgs, atom(ls.idxStart))
 		recArgs = append(recArgs, fmt.Sprintf("(Z.add %s 1%%Z)", lc.idxCoq))
 	}
 	if lc.prevCoq != "" {
 		binders = append(binders, fmt.Sprintf("(%s : option %s)", lc.prevCoq, elemK.coqType()))
-		callArgs = append(callArgs, atom(ls.prev0))
+		varArgs = append(varArgs, atom(ls.prev0))
 		recArgs = append(recArgs, fmt.Sprintf("(Some %s)", lc.elemCoq))
 	}
 	for _, g := range carried {
 		binders = append(binders, fmt.Sprintf("(%s : %s)", formal[g].coq, formal[g].kind.coqType()))
-		callArgs = append(callArgs, formal[g].coq)
+		varArgs = append(varArgs, formal[g].coq)
+	}
+	if len(varArgs) > 6 {
+		return "", c.err(ls.at, "loop with more than four carried variables")
 	}
 	bodyText = strings.ReplaceAll(bodyText, hole, strings.Join(recArgs, " "))
 	rt := c.sig.result.coqType()
@@ -727,7 +805,13 @@ func (c *fnCtx) emitLoop(ls loopSpec, e *env, rest cont) (string, error) {
 	c.tr.names[name] = true
 	c.tr.defs = append(c.tr.defs, def)
 	c.tr.helperNames = append(c.tr.helperNames, name)
-	return name + " " + strings.Join(callArgs, " "), nil
+	// The call is marked so that proofs can find it whatever the loop function is called and whatever its invariant
+	// parameters are: gen_loop<k> (loop invariants...) list-or-count [index] [previous] carried...
+	fn := name
+	if len(invArgs) > 0 {
+		fn = "(" + name + " " + strings.Join(invArgs, " ") + ")"
+	}
+	return fmt.Sprintf("gen_loop%d %s %s", len(varArgs), fn, strings.Join(varArgs, " ")), nil
 }
 
 // lookupBelow: the binding of a name in the scopes that existed when the loop was entered.
